@@ -11,7 +11,7 @@ PROP = "C05"
 
 
 def enumerate_specs(tier):
-    specs = []
+    specs = [{"scenario": n} for n in SCENARIOS]
     for name, od in cat.REG.items():
         for ci, args in enumerate(od.configs(tier)):
             specs.append({"op": name, "args": args, "variant": {}})
@@ -23,7 +23,85 @@ def enumerate_specs(tier):
     return specs
 
 
+class Scenario:
+    """constructors, len and iteration (including nested and interleaved iterations over one tensor)"""
+    prop = PROP
+
+    def __init__(self, name):
+        self.name = name
+        self.sig = "scenario:" + name
+
+    def run(self, env):
+        import numpy as np
+        import synapgrad
+        from ..harness import T
+        from ..symnum import engine as E
+        out = E.Outcome()
+        Tn = T()
+        n = self.name
+        if n == "constructors":
+            for nm, t, shape, val in (
+                    ("ones(2,3)", synapgrad.ones(2, 3), (2, 3), 1.0), ("ones((2,3))", synapgrad.ones((2, 3)), (2, 3), 1.0),
+                    ("zeros(3)", synapgrad.zeros(3), (3,), 0.0), ("zeros([2,1])", synapgrad.zeros([2, 1]), (2, 1), 0.0),
+                    ("ones_like", synapgrad.ones_like(Tn(env.const(np.zeros((2, 2)), np.float64))), (2, 2), 1.0),
+                    ("zeros_like", synapgrad.zeros_like(Tn(env.const(np.ones((1, 3)), np.float32))), (1, 3), 0.0)):
+                out.fact("%s has shape %s" % (nm, shape), tuple(t.shape) == shape, "got %s" % (tuple(t.shape),))
+                out.pair("%s values" % nm, t.data, np.full(shape, val))
+                out.fact("%s does not require grad" % nm, not t.requires_grad)
+            out.fact("default dtype is float32", str(synapgrad.ones(2).dtype) == "float32" and str(synapgrad.zeros(2).dtype) == "float32")
+            out.fact("ones_like keeps the dtype", str(synapgrad.ones_like(Tn(env.const(np.zeros(2), np.float64))).dtype) == "float64")
+            e = synapgrad.empty(2, 3)
+            out.fact("empty(2,3) has shape (2,3)", tuple(e.shape) == (2, 3))
+            a = synapgrad.arange(1, 7, 2)
+            out.pair("arange(1,7,2)", a.data, np.array([1.0, 3.0, 5.0]))
+            out.pair("arange(4)", synapgrad.arange(4).data, np.array([0.0, 1.0, 2.0, 3.0]))
+            out.pair("eye(3)", synapgrad.eye(3).data, np.eye(3))
+            x = env.arr("x", (2, 2))
+            t = synapgrad.tensor([[x[0, 0], x[0, 1]], [x[1, 0], x[1, 1]]]) if not env.sym else Tn(x)
+            out.pair("tensor(nested list)", t.data, x)
+            out.fact("tensor(..., requires_grad=True) requires grad", synapgrad.tensor([1.0, 2.0], requires_grad=True).requires_grad)
+            return out
+        x = env.arr("x", (3, 2))
+        t = Tn(x, requires_grad=(n == "iteration_grad"))
+        if n in ("iteration", "iteration_grad"):
+            out.fact("len is the first extent", len(t) == 3)
+            rows = [r for r in t]
+            out.fact("iteration yields one tensor per row", len(rows) == 3)
+            for i, r in enumerate(rows[:3]):
+                out.pair("row %d" % i, r.data, x[i])
+            again = [r for r in t]
+            out.fact("a second iteration starts from the first row again", len(again) == 3)
+            if n == "iteration_grad" and len(rows) == 3:
+                g = env.arr("g", (2,))
+                rows[1].backward(Tn(g))
+                exp = np.zeros((3, 2), dtype=object if env.sym else np.float64)
+                exp[...] = 0 * x[0, 0] if env.sym else 0.0
+                exp[1] = g
+                out.pair("gradient flows back through an iterated row", t._grad, exp)
+            return out
+        if n == "nested_iteration":
+            pairs = [(a, b) for a in t for b in t]
+            out.fact("nested iteration visits every ordered pair of rows", len(pairs) == 9, "visited %d pairs" % len(pairs))
+            if len(pairs) == 9:
+                for k, (a, b) in enumerate(pairs):
+                    out.pair("outer row of pair %d" % k, a.data, x[k // 3])
+                    out.pair("inner row of pair %d" % k, b.data, x[k % 3])
+            return out
+        if n == "interleaved_iteration":
+            it1, it2 = iter(t), iter(t)
+            seq = [next(it1), next(it2), next(it1), next(it2)]
+            for k, (r, want) in enumerate(zip(seq, (0, 0, 1, 1))):
+                out.pair("interleaved step %d" % k, r.data, x[want])
+            return out
+        raise ValueError(n)
+
+
+SCENARIOS = ["constructors", "iteration", "iteration_grad", "nested_iteration", "interleaved_iteration"]
+
+
 def build(spec):
+    if "scenario" in spec:
+        return Scenario(spec["scenario"])
     return OpCase(PROP, cat.REG[spec["op"]], spec["args"], spec.get("variant"))
 
 
